@@ -159,12 +159,36 @@ type PairSpec struct {
 	Applies func(p *PairCase) bool
 	// Known: id of the known finding whose class the pair lies in ("" = none).
 	Known func(p *PairCase) string
+	// Single: a single-outcome predicate of the same property; when set, the real outcome of every
+	// member of every pair (base tables and variants alike) must satisfy it too.
+	Single *PropSpec
+	// Opts: the generator options of the stream; when set together with Single, a member that
+	// disagrees with the model has its table searched for a request falsifying Single.
+	Opts *Opts
 }
 
 // CheckPairs: the two real outcomes must be the same (the property), and each must agree with the model.
 func CheckPairs(run *report.Run, ps PairSpec, stream string, pairs []*PairCase) {
-	bad, dis := 0, 0
+	bad, dis, single := 0, 0, 0
+	near := false
+	seen := map[*Case]bool{}
 	for _, p := range pairs {
+		if sp := ps.Single; sp != nil && sp.SpecKey != "" {
+			for _, c := range []*Case{p.A, p.B} {
+				if seen[c] {
+					continue
+				}
+				seen[c] = true
+				if (!sp.NeedWF || c.Spec["WF"] == "1") && c.Spec[sp.SpecKey] == "0" {
+					if id := knownOf(*sp, c); id != "" && sp.Proj(c.RealS) == sp.Proj(c.ModelS) {
+						run.KnownHits[id]++
+					} else if single < 3 {
+						single++
+						reportSpecFailure(run, *sp, c)
+					}
+				}
+			}
+		}
 		run.Evaluations++
 		run.TracesValidated += 2
 		run.Count(stream + ":" + p.Variant + ":" + p.A.Tag)
@@ -200,6 +224,10 @@ func CheckPairs(run *report.Run, ps PairSpec, stream string, pairs []*PairCase) 
 			if c.RealS != c.ModelS && known == "" && dis < 3 {
 				dis++
 				run.DisagreementsChecked++
+				if ps.Single != nil && ps.Opts != nil && !near && searchFalsifying(run, *ps.Single, *ps.Opts, *c.Cfg, c.Req) {
+					near = true // one falsifying input is enough; further disagreements are listed as such
+					continue
+				}
 				run.AddViolation(report.Violation{Kind: "correspondence", NoInput: true,
 					What:    fmt.Sprintf("model and implementation disagree on a case of stream %s (%s); the pair property itself held on the real outcomes", stream, ps.ID),
 					Theorem: "correspondence stream " + stream, Case: c.Lines(), Human: Human(c.Cfg, c.Req), Real: c.RealS, Model: c.ModelS})
